@@ -1,10 +1,11 @@
 CONSTANTS
   Peer = {1, 2}
   Repo = {1, 2}
+  Persistent = {2}
   Capacity = 1
   QueueMax = 2
   MaxTasks = 3
-  MaxOps = 8
+  MaxOps = 9
   Dev = {"late-same-peer"}
 INIT Init
 NEXT Next
